@@ -384,7 +384,8 @@ func (c *vregCluster) RemoveActor(ctx context.Context, name string) error {
 	c.reg.mu.Lock()
 	controlled := c.reg.controlled
 	c.reg.mu.Unlock()
-	if vregThreadOf(ctx) == nil && controlled {
+	// the death watch runs on its own goroutine but may inherit the stopping thread's context values
+	if (vregThreadOf(ctx) == nil || calledFrom("(*deathWatch).handleTerminated")) && controlled {
 		th := newVregThread(c.node)
 		c.reg.bgArrivals <- th
 		ok := <-th.resume
